@@ -37,6 +37,7 @@ EP == [
   quaternion_schur_unified |-> {"square"},
   quaternion_schur_experimental |-> {"square"},
   qgmres_solve |-> {"square", "coupled"},
+  qgmres_solve_left_lu |-> {"square", "coupled"},
   rsp_column |-> {"tall"},
   rsp_row |-> {"wide"},
   hybrid_compute |-> {"tall"},
@@ -64,7 +65,7 @@ Names == DOMAIN EP
 (* argument class -> the requirement it violates ("" for in-domain classes)   *)
 Violates == [
   ok_generic |-> "", ok_square_hermitian |-> "", ok_1x1 |-> "", ok_1xn |-> "", ok_nx1 |-> "", ok_rank_deficient |-> "",
-  nonsquare |-> "square", nonhermitian |-> "hermitian", too_small |-> "min2",
+  nonsquare |-> "square", nonsquare_wide |-> "square", nonhermitian |-> "hermitian", nonhermitian_diagonal |-> "hermitian", too_small |-> "min2",
   wide_for_tall |-> "tall", tall_for_wide |-> "wide", real_dtype |-> "quat", complex_dtype |-> "quat",
   sparse_storage |-> "dense", unknown_option |-> "option", mismatched_pair |-> "coupled",
   not_order3 |-> "order3"
